@@ -382,6 +382,19 @@ PlaceVocab(sh, w, kinds, ranges(_)) ==
     {Plain(m, k, t[1], t[2], t[3], X0) : m \in 1..NMods(sh), k \in kinds \cap Domains, t \in T}
       \cup {Out(m, k, t[1], t[2], t[3]) : m \in 1..NMods(sh), k \in kinds \cap OutKinds, t \in T}
 AllKinds == Domains \cup OutKinds
+(* Target forms.  The driven range s[lo:hi] may be written as a slice of a concatenation that reaches into a later  *)
+(* part:  Cat(p1, p2, s)[len(p1)+len(p2)+lo : len(p1)+len(p2)+hi]  drives exactly the bits lo..hi-1 of s and nothing *)
+(* of p1, p2 (the harness writes every target of stage "cattarget" that way, with and without a ResetInserter        *)
+(* around the first fragment -- which adds assignments of the same driver and so changes no identity).              *)
+CatSliceBits(pw, a, b) ==            \* bits <<part, index>> selected by Cat(parts of widths pw)[a:b]
+    LET Start(k) == IF k = 1 THEN 0 ELSE IF k = 2 THEN pw[1] ELSE pw[1] + pw[2] IN
+    {<<k, j - Start(k)>> : k \in 1..3, j \in a..(b - 1)} \cap {q \in (1..3) \X (0..7) : q[2] < pw[q[1]]}
+ASSUME \A w1 \in 2..4, w2 \in 2..4, w3 \in 1..4 : \A lo \in 0..w3, hi \in 0..w3 :
+          lo <= hi => CatSliceBits(<<w1, w2, w3>>, w1 + w2 + lo, w1 + w2 + hi) = {<<3, i>> : i \in lo..(hi - 1)}
+W4 == {<<4>>}
+CatRanges(wd) == {<<2, 4>>, <<0, 2>>, <<1, 3>>, <<3, 4>>, <<0, 4>>, <<2, 3>>}
+VocabCatTarget(sh, w) == PlaceVocab(sh, w, Domains, CatRanges)
+
 (* quick: all ranges for the small shapes, the characteristic ones for three modules *)
 VocabPlaceQ(sh, w) == IF NMods(sh) = 1 THEN PlaceVocab(sh, w, AllKinds, AllRanges)
                       ELSE IF NMods(sh) = 2 THEN PlaceVocab(sh, w, AllKinds, MidRanges) ELSE PlaceVocab(sh, w, AllKinds, FewRanges)
